@@ -51,7 +51,7 @@ Theorem C01_pass2_simulation_partial :
     forall w r, TM aden cden tden kval yden env ss w r -> TM aden cden tden kval yden env (bstmts B) w r.
 Proof.
   intros U V P aden cden tden kval yden env f k ss B Hs HB w r [n H].
-  destruct (proj1 (pass2_correct aden cden tden kval yden env f) k ss (mkBlock KDelay) B Hs (Forall_nil _) HB (S n) w r) as [m Hm].
+  destruct (proj1 (pass2_correct aden cden tden kval yden env f) k ss (mkBlock KDelay) B Hs (Forall_nil _) eq_refl HB (S n) w r) as [m Hm].
   - apply Nseq_empty. exact H.
   - exists m. exact Hm.
 Qed.
@@ -64,4 +64,11 @@ Example C01_hyps_hold_1 :
 Proof. vm_compute. reflexivity. Qed.
 Example C01_hyps_hold_2 :
   c01_hyps [SIf (Some (SAtom 9)) 2 [SYield 3; SIf None 4 [SReturn] (EElse [SYield 5; SAtom 6])] ENone; SAtom 7; SYield 8] = true.
+Proof. vm_compute. reflexivity. Qed.
+(* loops: a three-clause loop with a yield and a conditional break / continue in its body, then more statements *)
+Example C01_hyps_hold_3 :
+  c01_hyps [SFor (Some (SAtom 1)) (Some 2) (Some (SAtom 3))
+              [SIf None 4 [SBreak] ENone; SYield 5; SIf None 6 [SContinue] ENone; SAtom 7];
+            SYield 8;
+            SFor None None None [SYield 9; SIf None 10 [SReturn] ENone]] = true.
 Proof. vm_compute. reflexivity. Qed.
